@@ -1,3 +1,4 @@
+import Clover.Generated.Facts
 import Clover.Props.C17
 import Clover.Proofs.PlannerModel
 import Clover.Proofs.ReadsExact
@@ -95,5 +96,20 @@ theorem bulk_write_any_plan (s : Spec.State) (σ : KVS) (hw : WF s) (hr : Rep s 
 theorem planner_sound_abstract {V : Type} (O : Pl.VOrd V) (d : Pl.Doc V) (f : Pl.Field) (c : Pl.Crit V)
     (h : Pl.sat O d c = true) : Pl.covers O (Pl.fieldRange O f (Pl.flatten c)) (d.get f) = true :=
   Pl.planner_sound O d f c h
+
+end CV.Props.C02
+
+namespace CV.Props.C02
+
+/-- (facts, regenerated from the source on every run) **The decision logic the model transcribes is the
+    decision logic of the current source**: plan selection (`getIndexQueries`, `tryToSelectIndex`) and the two scan paths of `iterNode` — what `choosePlan`, `indexQuery`, `fullScan` and `onIdOf` of the model transcribe.  The text is the functions' bodies with comments and layout
+    removed.  Any edit of these functions breaks this theorem at build time; the check then searches
+    with the property's own oracles for a failing input (and reports `no-failing-input-found` if the
+    edit was harmless: the model then has to be re-validated against the new text). -/
+theorem source_decision_logic : CV.Facts.logicC02 = [
+  "clover..getIndexQueries: { if q.Criteria() == nil || len(indexes) == 0 { return nil } info := make(map[string]*index.Info) for _, idx := range indexes { info[idx.Field()] = &index.Info{ Field: idx.Field(), Type: idx.Type(), } } c := q.Criteria().Accept(&NotFlattenVisitor{}).(query.Criteria) selectedFields := c.Accept(&IndexSelectVisitor{ Fields: info, }).([]*index.Info) if len(selectedFields) == 0 { return nil } indexesMap := make(map[string]index.Index) for _, idx := range indexes { indexesMap[idx.Field()] = idx } fieldRanges := c.Accept(NewFieldRangeVisitor([]string{selectedFields[0].Field})).(map[string]*index.Range) queries := make([]index.Query, 0) for field, vRange := range fieldRanges { queries = append(queries, &index.RangeIndexQuery{ Range: vRange, Idx: indexesMap[field].(index.RangeIndex), }) } return queries }", 
+  "clover..tryToSelectIndex: { indexQueries := getIndexQueries(q, indexes) if len(indexQueries) == 1 { outputSorted := false idxQuery := indexQueries[0] if rangeQuery, ok := idxQuery.(*index.RangeIndexQuery); ok { if len(q.SortOptions()) == 1 && q.SortOptions()[0].Field == rangeQuery.Idx.Field() { rangeQuery.Reverse = q.SortOptions()[0].Direction < 0 outputSorted = true } } return &iterNode{ idxQuery: idxQuery, filter: q.Criteria(), collection: q.Collection(), }, outputSorted } if len(q.SortOptions()) == 1 { for _, idx := range indexes { if idx.Type() == index.SingleField && idx.Field() == q.SortOptions()[0].Field { return &iterNode{ filter: q.Criteria(), collection: q.Collection(), idxQuery: &index.RangeIndexQuery{ Range: nil, Idx: idx.(index.RangeIndex), Reverse: q.SortOptions()[0].Direction < 0, }, }, true } } } return nil, false }", 
+  "clover.iterNode.iterateFullCollection: { prefix := []byte(getDocumentKeyPrefix(nd.collection)) return iteratePrefix(prefix, tx, func(item store.Item) error { doc, err := d.Decode(item.Value) if err != nil { return err } if nd.filter == nil || nd.filter.Satisfy(doc) { return nd.CallNext(doc) } return nil }) }", 
+  "clover.iterNode.iterateIndex: { iterFunc := func(docId string) error { doc, err := getDocumentById(nd.collection, docId, tx) if err != nil || doc == nil { return err } if nd.filter == nil || nd.filter.Satisfy(doc) { return nd.CallNext(doc) } return nil } err := nd.idxQuery.Run(iterFunc) return err }"] := by rfl
 
 end CV.Props.C02
